@@ -1,6 +1,5 @@
 /- Line-protocol driver: one JSON object per line in, one per line out. No Mathlib. -/
-import QExPy.Driver.Json
-import QExPy.Driver.Expr
+import QExPy.Driver.All
 open Lean QExPy.Drv
 
 def handle (line : String) : String :=
@@ -9,9 +8,9 @@ def handle (line : String) : String :=
   | .ok j =>
     let r : R Json := do
       let cmd ← getStr (← field j "cmd")
-      match cmd with
-      | "expr" => cmdExpr j
-      | c => throw s!"unknown cmd {c}"
+      match allCmds.lookup cmd with
+      | some f => f j
+      | none => throw s!"unknown cmd {cmd}"
     match r with
     | .ok v => v.compress
     | .error e => (obj [("fail", Json.str e)]).compress
